@@ -6,7 +6,7 @@
    whatever stands at the third level. *)
 From Coq Require Import List Arith ZArith Lia Bool.
 From BiomV Require Import Base.Tree Base.ListUtil Base.Matrix Model.Table Model.Merge.
-From BiomV Require Import Gen.MergePrelude Gen.MergeGen.
+From BiomV Require Import Gen.MergePrelude Gen.MergeGen Proofs.MergeProofs Proofs.GenBridgeMergeProofs.
 Import ListNotations.
 
 Definition merge_rec := table -> marg -> mode -> mode -> option mdf -> option mdf -> result table.
@@ -24,66 +24,187 @@ Proof. destruct m; reflexivity. Qed.
 Lemma rbind_ok {A} (r : result A) : rbind r (fun x => ROk x) = r.
 Proof. destruct r; reflexivity. Qed.
 
+(* ---- the general path ---- *)
+Lemma items_sorted : forall (d : zdict nat) k, map snd d = seq k (length d) -> items_by_value d = d.
+Proof.
+  induction d as [|p d IH]; intros k H; [reflexivity|].
+  cbn [map length seq] in H. injection H as Hp Hd.
+  change (items_by_value (p :: d)) with (ins_by_value p (items_by_value d)).
+  rewrite (IH (S k) Hd).
+  destruct d as [|q r]; [reflexivity|]. cbn [map length seq] in Hd. injection Hd as Hq _.
+  cbn [ins_by_value]. rewrite Hp, Hq. rewrite (proj2 (Nat.leb_le k (S k))) by lia. reflexivity.
+Qed.
+
+(* what the source computes for one axis: the sorted (id, index) pairs of the order dictionary *)
+Definition gen_order (m : mode) (self : table) (a b : list Z) : option (zdict nat) :=
+  match m with
+  | Union => Some (items_by_value (tb_union_id_order self a b))
+  | Inter => Some (items_by_value (tb_intersect_id_order self a b))
+  | BadMode => None
+  end.
+
+Lemma gen_order_spec m self a b : NoDup a ->
+  match gen_order m self a b, order_for m a b with
+  | Some d, Some l => map fst d = l /\ map snd d = seq 0 (length d)
+  | None, None => True
+  | _, _ => False
+  end.
+Proof.
+  intros Hn. destruct m; cbn [gen_order order_for]; [| |exact Logic.I].
+  - unfold tb_union_id_order. destruct (union_order_bridge a b) as (H1 & H2).
+    assert (L : length (union_order a b) = length (union_id_order a b)) by (rewrite <- H1, map_length; reflexivity).
+    rewrite L in H2. rewrite (items_sorted _ 0 H2). split; assumption.
+  - unfold tb_intersect_id_order. destruct (intersect_order_bridge_partial a b Hn) as (H1 & H2).
+    assert (L : length (intersect_order a b) = length (intersect_id_order a b)) by (rewrite <- H1, map_length; reflexivity).
+    rewrite L in H2. rewrite (items_sorted _ 0 H2). split; assumption.
+Qed.
+
+Lemma f_or_drop_repl (f : option mdf) :
+  f_or_drop (if is_none f then Some (fun (x y : option Tree) => None) else f) = f_or_drop f.
+Proof. destruct f; reflexivity. Qed.
+
+Lemma build_eq self o (ds do : zdict nat) fs fo fs' fo' :
+  f_or_drop fs' = f_or_drop fs -> f_or_drop fo' = f_or_drop fo ->
+  (if is_empty ds then RErr E_TABLE else if is_empty do then RErr E_TABLE else merge_build self o ds do fs' fo')
+  = match map fst ds, map fst do with
+    | [], _ => RErr E_TABLE
+    | _, [] => RErr E_TABLE
+    | _, _ => ROk (mkT (map fst do) (map fst ds) (map (merged_row self o (map fst ds)) (map fst do))
+                       (merged_md (f_or_drop fo) Obs self o (map fst do))
+                       (merged_md (f_or_drop fs) Samp self o (map fst ds)) NOTYPE)
+    end.
+Proof.
+  intros Es Eo. destruct ds as [|p ds]; [destruct do; reflexivity|]. destruct do as [|q do]; [reflexivity|].
+  cbn [is_empty]. unfold merge_build. cbv zeta. rewrite Es, Eo. reflexivity.
+Qed.
+
+Definition ids_nodup (t : table) : Prop := NoDup (oids t) /\ NoDup (sids t).
+
 (* a single table: no call of the recursion parameter *)
-Lemma gen_merge_single (rec : merge_rec) self o sm om fs fo :
+Lemma gen_merge_single (rec : merge_rec) self o sm om fs fo : ids_nodup self ->
   gen_merge rec self (ATable o) sm om fs fo = merge_pair sm om fs fo self o.
 Proof.
-  unfold gen_merge, merge_pair, fast_ok. cbv zeta. cbn [arg_is_seq arg_table arg_list app].
+  intros (Ho & Hs).
+  unfold gen_merge, merge_pair, fast_ok. cbv beta zeta. cbn [arg_is_seq arg_table arg_list app].
   rewrite no_md_gen, !mode_eqb_union.
-  cbn [length Nat.eqb negb list_item nth_error rbind]. unfold merge_tail, tb_fast_merge.
+  cbn [length Nat.eqb negb list_item nth_error rbind]. unfold tb_fast_merge.
+  assert (K : forall fs' fo', f_or_drop fs' = f_or_drop fs -> f_or_drop fo' = f_or_drop fo ->
+    (if is_union sm
+     then (if is_union om
+           then (if is_empty (items_by_value (tb_union_id_order self (sids self) (sids o))) then RErr E_TABLE
+                 else if is_empty (items_by_value (tb_union_id_order self (oids self) (oids o))) then RErr E_TABLE
+                 else merge_build self o (items_by_value (tb_union_id_order self (sids self) (sids o)))
+                        (items_by_value (tb_union_id_order self (oids self) (oids o))) fs' fo')
+           else if mode_eqb om Inter
+           then (if is_empty (items_by_value (tb_union_id_order self (sids self) (sids o))) then RErr E_TABLE
+                 else if is_empty (items_by_value (tb_intersect_id_order self (oids self) (oids o))) then RErr E_TABLE
+                 else merge_build self o (items_by_value (tb_union_id_order self (sids self) (sids o)))
+                        (items_by_value (tb_intersect_id_order self (oids self) (oids o))) fs' fo')
+           else RErr E_TABLE)
+     else if mode_eqb sm Inter
+     then (if is_union om
+           then (if is_empty (items_by_value (tb_intersect_id_order self (sids self) (sids o))) then RErr E_TABLE
+                 else if is_empty (items_by_value (tb_union_id_order self (oids self) (oids o))) then RErr E_TABLE
+                 else merge_build self o (items_by_value (tb_intersect_id_order self (sids self) (sids o)))
+                        (items_by_value (tb_union_id_order self (oids self) (oids o))) fs' fo')
+           else if mode_eqb om Inter
+           then (if is_empty (items_by_value (tb_intersect_id_order self (sids self) (sids o))) then RErr E_TABLE
+                 else if is_empty (items_by_value (tb_intersect_id_order self (oids self) (oids o))) then RErr E_TABLE
+                 else merge_build self o (items_by_value (tb_intersect_id_order self (sids self) (sids o)))
+                        (items_by_value (tb_intersect_id_order self (oids self) (oids o))) fs' fo')
+           else RErr E_TABLE)
+     else RErr E_TABLE) = merge_general self o sm om fs fo).
+  { intros fs' fo' Efs Efo. unfold merge_general.
+    pose proof (gen_order_spec sm self (sids self) (sids o) Hs) as Ps.
+    pose proof (gen_order_spec om self (oids self) (oids o) Ho) as Po.
+    destruct sm, om; cbn [gen_order order_for is_union mode_eqb] in *;
+      try reflexivity;
+      try (destruct Ps as (Ps & _); destruct Po as (Po & _); rewrite <- Ps, <- Po; apply build_eq; assumption);
+      try (destruct Ps as (Ps & _); rewrite <- Ps;
+           match goal with |- context [match map fst ?d with _ => _ end] => destruct d; reflexivity end). }
   destruct (forallb no_md [self; o] || (is_none fs && is_none fo)); cbn [andb];
-    [destruct (is_union sm && is_union om) eqn:E|].
-  - destruct (is_union sm), (is_union om); try discriminate. reflexivity.
-  - destruct (is_union sm), (is_union om); try discriminate; reflexivity.
-  - reflexivity.
+    [destruct (is_union sm) eqn:Es, (is_union om) eqn:Eo; cbn [andb]; [reflexivity| | |]|];
+    try rewrite Es; try rewrite Eo;
+    destruct fs as [gs|], fo as [go|]; cbn [is_none]; apply K; reflexivity.
+Qed.
+
+Lemma merge_pair_nodup sm om fs fo self o m :
+  ids_nodup self -> merge_pair sm om fs fo self o = ROk m -> ids_nodup m.
+Proof.
+  intros (Ho & Hs). unfold merge_pair. destruct (fast_ok [self; o] sm om fs fo).
+  - intros E. injection E as <-. unfold fast_merge. cbv zeta. split; cbn [oids sids]; apply usort_NoDup.
+  - unfold merge_general.
+    destruct (order_for sm (sids self) (sids o)) as [sord|] eqn:Es; [|discriminate].
+    destruct (order_for om (oids self) (oids o)) as [oord|] eqn:Eo; [|destruct sord; discriminate].
+    pose proof (order_for_NoDup _ _ _ _ Hs Es) as Ns. pose proof (order_for_NoDup _ _ _ _ Ho Eo) as No.
+    destruct sord as [|s sord]; [discriminate|]. destruct oord as [|x oord]; [discriminate|].
+    intros E. injection E as <-. split; assumption.
 Qed.
 
 Lemma pair_loop (rec : merge_rec) sm om fs fo others : forall acc,
+  (forall m, acc = ROk m -> ids_nodup m) ->
   fold_left (fun (acc : result table) (other : table) => rbind acc (fun merged : table =>
      rbind (gen_merge rec merged (ATable other) sm om fs fo) (fun merged : table => ROk merged))) others acc
   = fold_left (pair_step sm om fs fo) others acc.
 Proof.
-  induction others as [|o l IH]; intros acc; [reflexivity|]. cbn [fold_left]. rewrite IH. f_equal.
-  destruct acc; cbn [rbind pair_step]; [|reflexivity]. rewrite rbind_ok. apply gen_merge_single.
+  induction others as [|o l IH]; intros acc Hacc; [reflexivity|]. cbn [fold_left].
+  assert (E : rbind acc (fun merged : table =>
+                rbind (gen_merge rec merged (ATable o) sm om fs fo) (fun merged0 : table => ROk merged0))
+              = pair_step sm om fs fo acc o).
+  { destruct acc as [m|c]; cbn [rbind pair_step]; [|reflexivity]. rewrite rbind_ok.
+    apply gen_merge_single. apply Hacc. reflexivity. }
+  rewrite E. apply IH. intros m Hm. destruct acc as [m0|c]; cbn [pair_step] in Hm; [|discriminate].
+  eapply merge_pair_nodup; [apply Hacc; reflexivity|exact Hm].
 Qed.
 
-Lemma gen_merge_list (rec : merge_rec) self others sm om fs fo :
+Lemma gen_merge_list (rec : merge_rec) self others sm om fs fo : ids_nodup self ->
   gen_merge (gen_merge rec) self (AList others) sm om fs fo = merge_dispatch self others sm om fs fo.
 Proof.
-  unfold gen_merge at 1. unfold merge_dispatch, fast_ok. cbv zeta. cbn [arg_is_seq arg_list app].
-  rewrite no_md_gen, !mode_eqb_union. unfold tb_fast_merge, tb_copy, merge_tail.
-  assert (K : (if negb (Nat.eqb (length others) 1)
-               then rbind (fold_left (fun (acc : result table) (other : table) => rbind acc (fun merged : table =>
-                      rbind (gen_merge rec merged (ATable other) sm om fs fo) (fun merged : table => ROk merged)))
-                      others (ROk self)) (fun merged : table => ROk merged)
-               else rbind (list_item others 0) (fun other : table => merge_general self other sm om fs fo))
-              = match others with
-                | [other] => merge_general self other sm om fs fo
-                | _ => fold_left (pair_step sm om fs fo) others (ROk self)
-                end).
-  { rewrite rbind_ok, pair_loop. destruct others as [|o [|o2 l]]; reflexivity. }
-  destruct (forallb no_md (self :: others) || (is_none fs && is_none fo)); cbn [andb];
-    [destruct (is_union sm), (is_union om); cbn [andb]|]; try reflexivity; exact K.
+  intros Hn. destruct others as [|o [|o2 l]].
+  - unfold gen_merge at 1. unfold merge_dispatch, fast_ok. cbv beta zeta. cbn [arg_is_seq arg_list app].
+    rewrite no_md_gen, !mode_eqb_union. cbn [length Nat.eqb negb fold_left rbind]. unfold tb_fast_merge, tb_copy.
+    destruct (forallb no_md [self] || (is_none fs && is_none fo)); cbn [andb];
+      [destruct (is_union sm), (is_union om); cbn [andb]|]; reflexivity.
+  - (* one table in a list: as the single table *)
+    transitivity (gen_merge (gen_merge rec) self (ATable o) sm om fs fo); [reflexivity|].
+    rewrite gen_merge_single by exact Hn. reflexivity.
+  - unfold gen_merge at 1. unfold merge_dispatch, fast_ok. cbv beta zeta. cbn [arg_is_seq arg_list app].
+    rewrite no_md_gen, !mode_eqb_union. cbn [length Nat.eqb negb]. unfold tb_fast_merge, tb_copy.
+    rewrite rbind_ok, pair_loop by (intros m E; injection E as <-; exact Hn).
+    destruct (forallb no_md (self :: o :: o2 :: l) || (is_none fs && is_none fo)); cbn [andb];
+      [destruct (is_union sm), (is_union om); cbn [andb]|]; reflexivity.
 Qed.
 
 (* the method, with the recursion closed after two unfoldings (the third level is never reached) *)
 Definition merge_bottom : merge_rec := fun _ _ _ _ _ _ => RErr E_OTHER.
 Definition gen_merge_closed : merge_rec := gen_merge (gen_merge merge_bottom).
 
-Theorem merge_dispatch_bridge self sm om fs fo :
+Theorem merge_dispatch_bridge_partial self sm om fs fo :
+  NoDup (oids self) -> NoDup (sids self) ->
   (forall others, gen_merge_closed self (AList others) sm om fs fo = merge_dispatch self others sm om fs fo) /\
   (forall other, gen_merge_closed self (ATable other) sm om fs fo = merge_dispatch self [other] sm om fs fo).
 Proof.
+  intros Ho Hs. assert (Hn : ids_nodup self) by (split; assumption).
   split; intros x; unfold gen_merge_closed.
-  - apply gen_merge_list.
-  - rewrite gen_merge_single. unfold merge_pair, merge_dispatch. reflexivity.
+  - apply gen_merge_list. exact Hn.
+  - rewrite gen_merge_single by exact Hn. unfold merge_pair, merge_dispatch. reflexivity.
 Qed.
 
 (* the level the recursion is cut at does not matter *)
-Theorem merge_recursion_closed (rec : merge_rec) self a sm om fs fo :
+Theorem merge_recursion_closed_partial (rec : merge_rec) self a sm om fs fo :
+  NoDup (oids self) -> NoDup (sids self) ->
   gen_merge (gen_merge rec) self a sm om fs fo = gen_merge_closed self a sm om fs fo.
 Proof.
+  intros Ho Hs. assert (Hn : ids_nodup self) by (split; assumption).
   unfold gen_merge_closed. destruct a as [o|l].
-  - rewrite !gen_merge_single. reflexivity.
-  - rewrite !gen_merge_list. reflexivity.
+  - rewrite !gen_merge_single by exact Hn. reflexivity.
+  - rewrite !gen_merge_list by exact Hn. reflexivity.
+Qed.
+
+(* the hypothesis is satisfiable (ids of a well-formed table are distinct, C05) *)
+Example merge_bridge_hypothesis_satisfiable :
+  exists t : table, NoDup (oids t) /\ NoDup (sids t) /\ oids t <> [] /\ sids t <> [].
+Proof.
+  exists (mkT [1%Z; 2%Z] [7%Z] [[1%Z]; [0%Z]] None None NOTYPE). cbn [oids sids].
+  repeat split; try discriminate; repeat constructor; cbn [In]; intuition discriminate.
 Qed.
